@@ -150,7 +150,8 @@ func c01Codec(c *lab.Ctx) {
 				if name == "dubbo" || name == "dubbo-thrift" {
 					// keep the payload parseable for the reference side: these are opaque to the frame API anyway
 				}
-				fr.SetData(buffer.NewIoBufferBytes(append([]byte(nil), nb...)))
+				nbuf := buffer.NewIoBufferBytes(append([]byte(nil), nb...))
+				fr.SetData(nbuf)
 				out, err := p.Encode(ctx, fr)
 				if err != nil {
 					c.Count("modified-body-refused-with-error", 1)
@@ -158,6 +159,22 @@ func c01Codec(c *lab.Ctx) {
 				}
 				enc := append([]byte(nil), out.Bytes()...)
 				c01CheckModified(c, name, rf, enc, rf.Headers, nb, false, witness)
+				// a retry sends the same frame again: the proxy re-attaches the same body buffer (AppendData -> SetData) and encodes
+				// once more; the second frame must carry the same content as the first
+				if name == "tars" {
+					c.Distinct(sig + "|setdata|" + lenClass(len(nb)))
+					break // tars ignores SetData altogether (known finding): nothing more to learn from a second encode
+				}
+				fr.SetData(nbuf)
+				if out2, err2 := p.Encode(ctx, fr); err2 == nil {
+					c01CheckModifiedSig(c, name, rf, append([]byte(nil), out2.Bytes()...), rf.Headers, nb, "body-second-encode", func(x string) map[string]interface{} {
+						w := witness(x)
+						w["how"] = "SetData(new buffer); Encode; SetData(same buffer); Encode again (retry)"
+						return w
+					})
+				} else {
+					c.Violation("modified-frame-reencodes", "C01/"+name+"/modified-body-second-encode/error", fmt.Sprintf("%s: the first Encode of the modified frame succeeded, the second (retry) failed: %v", rf.Desc, err2), witness(""))
+				}
 				c.Distinct(sig + "|setdata|" + lenClass(len(nb)))
 			case 4, 5: // (c) body replaced the way the proxy's filter API does it (SetRequestData / SetResponseData):
 				// the buffer handed out by GetData() is refilled IN PLACE and the same object is passed to SetData;
@@ -201,6 +218,16 @@ func c01Codec(c *lab.Ctx) {
 					return w
 				}
 				c01CheckModifiedSig(c, name, rf, enc, wantHdr, nb, "inplace-body", witness2)
+				if name == "tars" {
+					c.Distinct(sig + fmt.Sprintf("|inplace|h=%v|%s", hdrMod, lenClass(len(nb))))
+					break
+				}
+				fr.SetData(d)
+				if out2, err2 := p.Encode(ctx, fr); err2 == nil {
+					c01CheckModifiedSig(c, name, rf, append([]byte(nil), out2.Bytes()...), wantHdr, nb, "inplace-body-second-encode", witness2)
+				} else {
+					c.Violation("modified-frame-reencodes", "C01/"+name+"/modified-body-second-encode/error", fmt.Sprintf("%s: the first Encode of the modified frame succeeded, the second (retry) failed: %v", rf.Desc, err2), witness2(""))
+				}
 				c.Distinct(sig + fmt.Sprintf("|inplace|h=%v|%s", hdrMod, lenClass(len(nb))))
 			case 3: // (c) header modification (wire-level header block exists for bolt/boltv2 only)
 				if name != "bolt" && name != "boltv2" {
